@@ -25,6 +25,12 @@ def value_of(kind, m):
     return m["counter"].get("i"), None
 
 
+def stretch(vals):
+    """second concretisation of an abstract tuple: every value embedded in a long common head and tail (> 128 bytes), so that
+    tuples differ only in the middle of long strings"""
+    return [("h" * 90) + v + ("t" * 90) for v in vals]
+
+
 def scenario(kind, arity, A, B, C, form="slice", order=None):
     base = kind.replace("local_", "")
     names = NAMES[:arity]
@@ -82,7 +88,10 @@ def run(ctx):
                 continue   # quick tier: sample the pairs that are not boundary-shifted
             jobs.append({"id": len(jobs), "calls": scenario(kind, arity, A, B, C)})
             meta.append((ci, kind, "slice"))
-            if not kind.startswith("local_") and arity >= 2:
+            if (ci + kinds.index(kind)) % 5 == ctx.seed % 5 or not quick:
+                jobs.append({"id": len(jobs), "calls": scenario(kind, arity, stretch(A), stretch(B), stretch(C))})
+                meta.append((ci, kind, "slice-long"))
+            if not kind.startswith("local_") and arity >= 1:
                 for order in itertools.permutations(range(arity)):
                     if quick and order == tuple(range(arity)) and ci % 2:
                         continue
@@ -99,6 +108,8 @@ def run(ctx):
             ctx.violation("request-failed", "%s: a well-formed request failed or panicked: %s" % (kind, bad[0]), {"calls": j["calls"]})
             continue
         exp = expected_children(len(A), c["final"])
+        if form == "slice-long":
+            exp = {tuple((n, ("h" * 90) + v + ("t" * 90)) if (n, v) not in [tuple(p) for p in CONST] else (n, v) for n, v in k): v2 for k, v2 in exp.items()}
         got = {}
         dup = False
         for fam in rs[-1]["ok"]:
@@ -133,6 +144,9 @@ def run(ctx):
                     {"op": "with_map", "vec": "v", "pairs": [[n, "q"] for n in names[:-1]]},
                     {"op": "remove_map", "vec": "v", "pairs": [[n, "q"] for n in names[:-1]] + [["zz", "q"]]},
                     {"op": "with_map", "vec": "v", "pairs": []}]
+            bads += [{"op": "with_map", "vec": "v", "pairs": [[n, "a"] for n in names] + [["zz", "q"]]},
+                     {"op": "remove_map", "vec": "v", "pairs": [[n, "a"] for n in names] + [["zz", "q"]]},
+                     {"op": "with_map", "vec": "v", "pairs": [[n, "a"] for n in names] + [["zz", "q"], ["yy", "r"]]}]
             if arity == 0:
                 continue
             for b in bads:
